@@ -13,7 +13,12 @@ EXPLANATION = (
     'literal datum pattern matches only data of the same kind and its verdict depends on both payloads; '
     '(template-total) every template variant is handled and identifiers consult the substitution table first; '
     '(reexpand) a macro use is looked up before being treated as a call and its expansion is parsed again; '
-    '(keywords) the core keyword table.')
+    '(keywords) the core keyword table. (expansion) sixteen rule sets of the supported class (pattern variables, '
+    '_, literal identifiers and data, sub-lists, vectors, a final ellipsis incl. list sub-patterns under it, '
+    "ellipsis sub-templates) are parsed by the crate's own transform_transformer and applied by "
+    'UserDefinedTransformer::transform, both followed through their MIR, to uses of 0..3 items (atoms, lists, '
+    "vectors, dotted forms): expansion or `no rule matches` as the statement's matching / instantiation relation "
+    'gives.')
 NOT_DECIDED = ("the matching relation of match_datum_stream (a backtracking ellipsis matcher) over all pattern/input "
                "shapes, and the exact expansion text.")
 
